@@ -2,6 +2,7 @@ package sim
 
 import (
 	"fmt"
+	"math"
 	"strings"
 	"testing/synctest"
 
@@ -579,6 +580,7 @@ func init() {
 // process valid messages: the fair suffix reached quiescence (liveness is
 // C06's verdict; here we only demand that a fresh transaction commits).
 func (c *Cluster) checkC08StillLive() {
+	c.rolledWindowScenario()
 	if c.fairMode && c.hostileSeen {
 		// a node whose every exchange of the fair suffix failed (from the first
 		// cycle to the last, at least five cycles) can no longer process valid
@@ -857,5 +859,70 @@ func (c *Cluster) staleHeadScenario() {
 			c.violate("C07", "rejection-leaves-state", "rejected-event-changed-state:stale-head", "an instance refused an event of the forger with %s (%s: %v) but the listing of the forger's events changed (%d -> %d entries)", why, form, err, len(listingBefore), len(listingAfter))
 			return
 		}
+	}
+}
+
+func hostileIndex(r *RNG) int {
+	opts := []int{math.MinInt64, math.MinInt64 + 1, math.MinInt64 + 7, math.MaxInt64, math.MaxInt64 - 1, math.MinInt32, math.MaxInt32,
+		-1, -2, -3, 0, 1, 1 << 40, -(1 << 40), math.MinInt64 / 2, math.MaxInt64 / 2}
+	return opts[r.Intn(len(opts))]
+}
+
+// rolledWindowScenario (C08): with default-sized caches no creator's rolling
+// index ever rolls in a simulated run, so the arithmetic around the lower edge
+// of the window is never reached by the hostile known-maps sent to the nodes.
+// At the end of a run its events are fed to one fresh instance whose cache is
+// about half the longest chain (sequential, deterministic); the lookups a sync
+// request performs on behalf of its known-map (Store.ParticipantEvents per
+// creator, as core.eventDiff does, and ParticipantEvent) are then made with
+// boundary values of the integer range. Any answer is fine; a panic is not.
+func (c *Cluster) rolledWindowScenario() {
+	if abortRun.Load() || len(c.dag.forks) > 0 {
+		return
+	}
+	longest := 0
+	for _, ch := range c.dag.byCI {
+		if len(ch) > longest {
+			longest = len(ch)
+		}
+	}
+	cache := longest / 2
+	if cache > 60 {
+		cache = 60
+	}
+	if cache < 10 {
+		c.stats.probe("c08-rolled-window-skipped-short-history")
+		return
+	}
+	in := c.newInstance("rolled-window", "inmem", cache)
+	defer in.close()
+	for _, de := range c.dag.order {
+		progress.Add(1)
+		in.h.InsertEventAndRunConsensus(eventFromRecord(de), true)
+	}
+	store := in.h.Store
+	r := NewRNG(Mix(c.seed, 0x726f6c6c))
+	pubs := []string{}
+	for _, n := range c.nodes {
+		pubs = append(pubs, n.pubHex)
+	}
+	c.stats.probe("c08-rolled-window-instance")
+	for k := 0; k < 40; k++ {
+		pub := pubs[r.Intn(len(pubs))]
+		v := hostileIndex(r)
+		if r.Bool(0.3) {
+			// around the edges of the window
+			v = len(c.dag.byCI[pub]) - cache + r.Range(-3, 3)
+		}
+		func() {
+			defer func() {
+				if rec := recover(); rec != nil {
+					c.violate("C08", "no-panic", "panic@"+topFrame(), "panic in the store lookup a sync request performs for a creator whose rolling index has rolled (cache %d, %d events of the creator, known index %d): %v at %s", cache, len(c.dag.byCI[pub]), v, rec, topFrame())
+				}
+			}()
+			c.stats.probe("c08-input:known-index-on-rolled-window")
+			store.ParticipantEvents(pub, v)
+			store.ParticipantEvent(pub, v)
+		}()
 	}
 }
